@@ -159,6 +159,43 @@ def sticky_placement_inputs(F, rng, n):
     return out
 
 
+def tie_decimals(F, rng, per=6):
+    """Short decimals w * 10^q that are EXACTLY halfway between two adjacent floats (the round-to-even window of the
+    moderate path: q in about -4..23 for f64, -17..10 for f32) and their neighbours w-1, w+1."""
+    p = F["p"]
+    out = []
+    qr = range(-6, 29) if p == 53 else range(-19, 13)
+    for q in qr:
+        if q >= 0:
+            f5 = 5 ** q
+            lo = -(-(1 << p) // f5)
+            hi = ((1 << (p + 1)) - 1) // f5
+            if hi < lo:
+                continue
+            for _ in range(per):
+                w = rng.randrange(lo, hi + 1) | 1
+                if not (lo <= w <= hi):
+                    continue
+                M = w * f5
+                if M.bit_length() != p + 1:
+                    continue
+                sh = rng.choice([0, 0, 1, 3])              # the same tie in a higher binade: w * 2^sh
+                ws = w << sh
+                for d in (0, -1, 1):
+                    out.append(("%de%d" % (ws + d, q), "exact-tie" if d == 0 else "tie-neighbour"))
+                out.append(("%d.0e%d" % (ws, q), "exact-tie"))
+        else:
+            k = -q
+            for _ in range(per):
+                c = rng.randrange(1 << p, 1 << (p + 1)) | 1
+                w = c * 5 ** k
+                sh = rng.choice([0, 1, 2, 5])
+                ws = w << sh
+                for d in (0, -1, 1):
+                    out.append(("%de%d" % (ws + d, q), "exact-tie" if d == 0 else "tie-neighbour"))
+    return out
+
+
 def lemire_row_inputs(F, rng, qs, per=2):
     """19/20-digit significands w such that w * 10^q straddles a rounding boundary within ~2^-63."""
     out = []
